@@ -40,7 +40,15 @@ type NondetRec struct {
 	Typ  types.Type
 }
 
+type ObserveRec struct {
+	Name string
+	G    *Term
+	Val  Value
+	Typ  types.Type
+}
+
 type Exec struct {
+	Observes []ObserveRec
 	ts      *TS
 	prog    *ssa.Program
 	B       Bounds
